@@ -540,6 +540,9 @@ func (m *ctlModel) eval(fr *mFrame, e Expr) (mValue, completion) {
 		if abruptExpr(c) {
 			return nil, c
 		}
+		if p, ok := v.(*mPromise); ok && e.Tamper {
+			p.tampered = true
+		}
 		rv, rc := m.await(fr, v)
 		if rc.t != cNormal {
 			return nil, rc
